@@ -4,6 +4,7 @@ import (
 	"encoding/binary"
 	"errors"
 	"fmt"
+	"math"
 )
 
 const (
@@ -134,6 +135,9 @@ var (
 	ErrPanic = errors.New("user error")
 	// ErrUnknownOpcode is returned when an unknown opcode is encountered.
 	ErrUnknownOpcode = fmt.Errorf("%w: unknown opcode", ErrInternal)
+	// ErrOperandRange is returned when an operand does not fit its
+	// 16 bit encoding, i.e. the program is too large for the bytecode format.
+	ErrOperandRange = fmt.Errorf("%w: operand out of range", ErrPanic)
 )
 
 // definitions is a mapping of OpCode to OpDefinition.
@@ -214,7 +218,10 @@ func Make(op Opcode, operands ...int) ([]byte, error) {
 	for i, o := range operands {
 		width := def.OperandWidths[i]
 		if width == 2 {
-			binary.BigEndian.PutUint16(instruction[offset:], uint16(o)) //nolint:gosec // we are just going to be lax about overflow errors at the moment
+			if o < 0 || o > math.MaxUint16 {
+				return nil, fmt.Errorf("%w: %s %d", ErrOperandRange, def.Name, o)
+			}
+			binary.BigEndian.PutUint16(instruction[offset:], uint16(o))
 		}
 		offset += width
 	}
